@@ -46,6 +46,32 @@ def anchors(prop):
     return ctx.prog, out
 
 
+# a "nearby" predicate: looks plausible, differs on some states
+PRED_SWAP = {
+    'is_completed': 'is_paused_or_completed',
+    'is_paused_or_completed': 'is_completed',
+    'is_running': 'is_idle',
+    'is_paused': 'is_paused_or_idle',
+    'is_paused_or_idle': 'is_paused',
+    'is_cancelled': 'is_cancelled_or_skipped',
+    'is_cancelled_or_skipped': 'is_cancelled',
+    'is_skipped': 'is_cancelled_or_skipped',
+    'is_waiting': 'is_idle',
+    'is_idle': 'is_waiting',
+}
+# `x == states.S` -> a predicate that holds for S and for more
+EQ_TO_PRED = {
+    'RUNNING': 'is_running',          # also DELAYED
+    'PAUSED': 'is_paused_or_idle',
+    'IDLE': 'is_paused_or_idle',
+    'CANCELLED': 'is_cancelled_or_skipped',
+    'SKIPPED': 'is_cancelled_or_skipped',
+    'SUCCESS': 'is_completed',
+    'ERROR': 'is_completed',
+    'WAITING': 'is_waiting',
+}
+
+
 class Mut(ast.NodeTransformer):
     """Applies mutation number `target` (in traversal order) of kind
     `kind` inside one function."""
@@ -87,6 +113,24 @@ class Mut(ast.NodeTransformer):
 
     def visit_Compare(self, node):
         self.generic_visit(node)
+        if self.kind == 'swap-pred' and len(node.ops) == 1 and \
+                isinstance(node.ops[0], (ast.Eq, ast.NotEq)) and \
+                isinstance(node.comparators[0], ast.Attribute) and \
+                isinstance(node.comparators[0].value, ast.Name) and \
+                node.comparators[0].value.id == 'states' and \
+                node.comparators[0].attr in EQ_TO_PRED:
+            if self._hit():
+                pred = EQ_TO_PRED[node.comparators[0].attr]
+                self.desc = '%s -> states.%s(...)' % (
+                    ast.unparse(node)[:50], pred)
+                call = ast.Call(
+                    func=ast.Attribute(value=ast.Name(id='states',
+                                                      ctx=ast.Load()),
+                                       attr=pred, ctx=ast.Load()),
+                    args=[node.left], keywords=[])
+                if isinstance(node.ops[0], ast.NotEq):
+                    return ast.UnaryOp(op=ast.Not(), operand=call)
+                return call
         if self.kind == 'flip-compare' and len(node.ops) == 1:
             flip = {ast.Eq: ast.NotEq, ast.NotEq: ast.Eq, ast.Lt: ast.GtE,
                     ast.GtE: ast.Lt, ast.Gt: ast.LtE, ast.LtE: ast.Gt,
@@ -96,6 +140,17 @@ class Mut(ast.NodeTransformer):
             if t in flip and self._hit():
                 self.desc = 'flip: %s' % ast.unparse(node)[:60]
                 node.ops = [flip[t]()]
+        return node
+
+    def visit_Call(self, node):
+        self.generic_visit(node)
+        if self.kind == 'swap-pred' and isinstance(node.func, ast.Attribute) \
+                and isinstance(node.func.value, ast.Name) and \
+                node.func.value.id == 'states' and node.func.attr in PRED_SWAP:
+            if self._hit():
+                new = PRED_SWAP[node.func.attr]
+                self.desc = 'states.%s -> states.%s' % (node.func.attr, new)
+                node.func.attr = new
         return node
 
     def visit_Attribute(self, node):
@@ -110,7 +165,7 @@ class Mut(ast.NodeTransformer):
 
 
 KINDS = ('drop-guard', 'negate-if', 'drop-call', 'flip-compare',
-         'swap-state')
+         'swap-state', 'swap-pred')
 
 
 def mutants_of(prog, q):
@@ -239,6 +294,9 @@ def main():
         limit = int(args[args.index('--limit') + 1])
     if '--out' in args:
         out = args[args.index('--out') + 1]
+    global KINDS
+    if '--kinds' in args:
+        KINDS = tuple(args[args.index('--kinds') + 1].split(','))
     only = None
     if '--match' in args:
         only = args[args.index('--match') + 1].split(',')
